@@ -201,3 +201,216 @@ Example c04_ex_log :
   report_deleted (stored_log [[mkRange 1 5; mkRange 6 8]; [mkRange 5 0]; [mkRange 3 9]])
   = [mkRange 1 9].
 Proof. vm_compute. reflexivity. Qed.
+
+(* ====================================================================== *)
+(* C04, layer 2: history retrieval, permissions, delete transactions, the
+   deletion log - over the product model Sys/Topic.v instantiated with the
+   range algebra above (Sys/TopicInst.v), for EVERY history.
+
+   Specification (Sys/TopicHist.v): [hspec] = live messages id -> (author,
+   content), per-user soft-hidden ids, hard-deleted ids, delete counter;
+   user u sees id x iff it is live and not soft-hidden for u ([hs_visible]);
+   the ids deleted for u are his soft-hidden ones and the hard-deleted ones
+   ([hs_deleted_for]).  Transitions [hs_step]: accepted publish; accepted
+   delete, soft = for the requester only / hard = for everyone with the row
+   erased, of exactly the ids the request denotes clipped to ids <= lastID
+   ([req_ids]); deletion of a subscription forgets that user's own soft
+   deletions (the store removes his log rows).  [abs s] reads a specification
+   state off the stored message rows and deletion-log rows; [event_of] reads
+   the transition off a request, its reply and - for a deletion - the
+   requester's effective mode and lastID before it.
+   [reach sm s0 h] is the state after history h from the new topic s0.       *)
+From Tinode Require Import Pure.Acs Sys.Topic Sys.TopicTac Sys.TopicInst Sys.TopicHist Sys.TopicHistProofs
+  Sys.TopicHistInst Sys.TopicHistThm.
+
+(* ---- refinement ---- *)
+
+(* After ANY history (any users, sessions, permission changes, publishes, deletions of any
+   range lists, unsubscribe/resubscribe, unload, restart, failing or crashing store calls
+   outside the 2nd/3rd store call of a delete request) what the stored rows show IS what the
+   specification computes from the accepted requests: nothing else hides or shows a message. *)
+Theorem c04_history_refines : forall sm s0 h, hist_init s0 -> hist_ok sm h ->
+  heq (abs (st (reach sm s0 h))) (hs_run del_ranges_i norm_ranges_i sm (mkState s0 None 0) h (abs s0)).
+Proof. exact history_refines. Qed.
+Print Assumptions c04_history_refines.
+
+(* one request = one specification transition, in every state satisfying the invariant *)
+Theorem c04_request_refines : forall sm f x o, inv_hist x -> op_ok sm o -> fault_ok f o ->
+  heq (abs (st (fst (step_i sm f x o)))) (hs_step (abs (st x)) (event_of sm x o (snd (step_i sm f x o))))
+  /\ inv_del (fst (step_i sm f x o)).
+Proof. intros sm. exact (step_sim del_ranges_i norm_ranges_i sm dr_exact_i). Qed.
+Print Assumptions c04_request_refines.
+
+(* the hypothesis on faults cannot be dropped: a store failure after the first store call of
+   a hard delete answers 500 but leaves the message rows erased and the log rows written *)
+Theorem c04_refines_any_fault_refuted : ~ refines_any_fault_statement.
+Proof. exact refines_any_fault_refuted. Qed.
+Print Assumptions c04_refines_any_fault_refuted.
+
+(* what the specification transitions mean for a reader *)
+Theorem c04_soft_hides_for_requester_only : forall a u v ids x,
+  hs_visible (hs_step a (HDel u false ids)) u x = (if ids x then None else hs_visible a u x) /\
+  (v <> u -> hs_visible (hs_step a (HDel u false ids)) v x = hs_visible a v x).
+Proof. intros a u v ids x. split; [apply spec_soft_self|apply spec_soft_other]. Qed.
+Print Assumptions c04_soft_hides_for_requester_only.
+
+Theorem c04_hard_hides_for_everyone : forall a u v ids x,
+  hs_visible (hs_step a (HDel u true ids)) v x = if ids x then None else hs_visible a v x.
+Proof. exact spec_hard_all. Qed.
+Print Assumptions c04_hard_hides_for_everyone.
+
+Theorem c04_deleted_for_after_delete : forall a u v hard ids x, v <> 0%N ->
+  hs_deleted_for (hs_step a (HDel u hard ids)) v x = ((hard || N.eqb v u) && ids x) || hs_deleted_for a v x.
+Proof. exact spec_deleted_for. Qed.
+Print Assumptions c04_deleted_for_after_delete.
+
+(* ---- {get data} ---- *)
+
+(* After ANY history (any faults and crashes), the answer to {get data since before limit}
+   from an attached session of a user with R is: the data frames, then the closing {ctrl}
+   (204 if none, else 208 with their count); the frames are strictly newest-first, at most
+   min(limit, 100) (100 when limit is 0 or larger); every frame is a message inside
+   [since, before) that the specification shows to THAT user, with its author and content;
+   every such message is in the answer unless the answer is full and it is older than all of it. *)
+Theorem c04_get_data_exact : forall sm s0 h c sid since before limit,
+  hist_init s0 -> ca (reach sm s0 h) = Some c -> attached c sid = true ->
+  is_reader (user_mode c (sess_uid sm sid)) = true ->
+  let s := st (reach sm s0 h) in
+  let u := sess_uid sm sid in
+  let o := snd (step_i sm NoFault (reach sm s0 h) (OGetData sid since before limit)) in
+  let fr := data_of o in
+  let lim := Z.to_nat (eff_limit max_msg_results limit) in
+  o = map (fun e => (sid, Data (fst (fst e)) (snd (fst e)) (snd e))) fr ++ [(sid, data_closing (length fr))] /\
+  (length fr <= lim)%nat /\
+  StronglySorted data_gt fr /\
+  (forall x a ct, In (x, a, ct) fr -> in_window since before x = true /\ hs_visible (abs s) u x = Some (a, ct)) /\
+  (forall x a ct, in_window since before x = true -> hs_visible (abs s) u x = Some (a, ct) ->
+     In (x, a, ct) fr \/ (length fr = lim /\ forall e, In e fr -> x < fst (fst e))).
+Proof. exact get_data_history. Qed.
+Print Assumptions c04_get_data_exact.
+
+Theorem c04_get_data_limit : forall limit,
+  0 < eff_limit max_msg_results limit <= max_msg_results /\ (0 < limit -> eff_limit max_msg_results limit <= limit).
+Proof. exact limit_bound. Qed.
+Print Assumptions c04_get_data_limit.
+
+(* a user without R gets none; a session that is not attached is refused *)
+Theorem c04_get_data_needs_read : forall sm f s c n0 sid since before limit, attached c sid = true ->
+  is_reader (user_mode c (sess_uid sm sid)) = false ->
+  snd (step_i sm f (mkState s (Some c) n0) (OGetData sid since before limit)) = [(sid, Ctrl 204 [(P_what, 1)])].
+Proof. exact get_data_needs_read. Qed.
+Print Assumptions c04_get_data_needs_read.
+
+Theorem c04_get_data_needs_attach : forall sm f s cx n0 sid since before limit,
+  match cx with Some c => attached c sid = false | None => True end ->
+  step_i sm f (mkState s cx n0) (OGetData sid since before limit) = (mkState s cx 0, [(sid, Ctrl 403 [])]).
+Proof. exact get_data_needs_attach. Qed.
+Print Assumptions c04_get_data_needs_attach.
+
+(* ---- {del msg} ---- *)
+
+(* The four outcomes of a delete request (store calls 2 and 3 not failing): refused 403 iff the
+   requester's effective mode has neither D nor R; 400 iff the range list is refused (layer 1:
+   c04_del_ranges_accepts / _rejects_invalid); 500 on a failing first store call; else accepted:
+   reply 200 with del = delID+1, hard only if asked AND D is in the effective mode (otherwise
+   silently soft), written for everyone (user 0) when hard and for the requester when soft. *)
+Theorem c04_delete_request : forall f s c sid u req hard0,
+  fails f 1 = true \/ (fails f 2 = false /\ fails f 3 = false) ->
+  let h := del_msg del_ranges_i f s c 0 sid u req hard0 in
+  del_denied s c sid u h \/ del_malformed del_ranges_i s c sid u req h \/ del_store_failed del_ranges_i s c sid u req h \/
+  del_accepted del_ranges_i s c sid u req hard0 h.
+Proof. exact (del_msg_cases del_ranges_i). Qed.
+Print Assumptions c04_delete_request.
+
+(* the ranges handed to the store cover exactly the ids the request denotes *)
+Theorem c04_delete_ids_exact : forall last req out, del_ranges_i last req = Some out ->
+  forall x, covers out x = req_ids last req x.
+Proof. exact dr_exact_i. Qed.
+Print Assumptions c04_delete_ids_exact.
+
+(* message rows: a soft delete (asked for, or degraded for lack of D) touches none; a hard one
+   stamps exactly the live rows the request denotes with the transaction number and erases
+   their content; the stored delete counter becomes delID+1 *)
+Theorem c04_delete_rows : forall s c sid u req hard0 h, u <> 0%N ->
+  del_accepted del_ranges_i s c sid u req hard0 h ->
+  t_delid (h_st h) = c_delid c + 1 /\
+  if hard0 && is_deleter (user_mode c u)
+  then msgs (h_st h) = map (fun m => if (m_delid m =? 0) && req_ids (c_lastid c) req (m_seq m)
+                                     then mkMsg (m_seq m) (m_from m) 0%N (c_delid c + 1) else m) (msgs s)
+  else msgs (h_st h) = msgs s.
+Proof. exact del_accepted_rows. Qed.
+Print Assumptions c04_delete_rows.
+
+(* delID of the loaded topic is the stored counter: an accepted request gets the NEXT number *)
+Theorem c04_delid_next : forall sm s0 h c, hist_init s0 -> hist_ok sm h -> ca (reach sm s0 h) = Some c ->
+  c_delid c = t_delid (st (reach sm s0 h)) /\ 0 <= t_delid (st (reach sm s0 h)).
+Proof. exact delid_next. Qed.
+Print Assumptions c04_delid_next.
+
+(* "soft deletion requires read permission": REFUTED as stated - the code asks for R only
+   when D is missing (a user with D but without R soft- or hard-deletes); it holds for every
+   requester without D, under any faults *)
+Theorem c04_soft_needs_read_refuted : ~ soft_needs_read_statement.
+Proof. exact soft_needs_read_refuted. Qed.
+Print Assumptions c04_soft_needs_read_refuted.
+
+Theorem c04_soft_needs_read_partial : forall f s c sid u req hard d,
+  is_deleter (user_mode c u) = false ->
+  h_out (del_msg del_ranges_i f s c 0 sid u req hard) = [(sid, Ctrl 200 [(P_del, d)])] ->
+  is_reader (user_mode c u) = true.
+Proof. exact soft_needs_read_partial. Qed.
+Print Assumptions c04_soft_needs_read_partial.
+
+(* ---- {get del} ---- *)
+
+(* After ANY history (any faults), for a reader, when the selected log rows fit the limit: no
+   row selected -> 204; else one {meta del} whose ranges cover exactly the ids named by the
+   log rows written for everyone or for THAT user with transaction number in [since, before),
+   and whose delid is the largest selected transaction number. *)
+Theorem c04_get_del_exact : forall sm s0 h c sid since before limit,
+  hist_init s0 -> ca (reach sm s0 h) = Some c -> attached c sid = true ->
+  is_reader (user_mode c (sess_uid sm sid)) = true ->
+  let s := st (reach sm s0 h) in
+  let u := sess_uid sm sid in
+  let o := snd (step_i sm NoFault (reach sm s0 h) (OGetDel sid since before limit)) in
+  (length (filter (del_sel u since before) (dellog s)) <= Z.to_nat (eff_limit max_results limit))%nat ->
+  (o = [(sid, Ctrl 204 [(P_what, 3)])] /\ forall x, logged_sel s u since before x = false) \/
+  (exists maxid rs, o = [(sid, MetaDel maxid rs)] /\
+     (forall x, covers rs x = logged_sel s u since before x) /\
+     (forall d, In d (dellog s) -> del_sel u since before d = true -> d_delid d <= maxid) /\
+     (exists d, In d (dellog s) /\ del_sel u since before d = true /\ d_delid d = maxid)).
+Proof. exact get_del_history. Qed.
+Print Assumptions c04_get_del_exact.
+
+(* an unrestricted query reports exactly the ids deleted for that user: no more, no fewer *)
+Theorem c04_get_del_open : forall sm s0 h u since before x, hist_init s0 -> since <= 0 -> before <= 1 ->
+  logged_sel (st (reach sm s0 h)) u since before x = hs_deleted_for (abs (st (reach sm s0 h))) u x.
+Proof. exact logged_open. Qed.
+Print Assumptions c04_get_del_open.
+
+Theorem c04_get_del_needs_read : forall sm f s c n0 sid since before limit, attached c sid = true ->
+  is_reader (user_mode c (sess_uid sm sid)) = false ->
+  snd (step_i sm f (mkState s (Some c) n0) (OGetDel sid since before limit)) = [(sid, Ctrl 204 [(P_what, 3)])].
+Proof. exact get_del_needs_read. Qed.
+Print Assumptions c04_get_del_needs_read.
+
+(* in every reachable state, whatever the faults: message numbers are unique and every log row
+   is a non-empty range of non-negative ids with a non-negative transaction number *)
+Theorem c04_rows_wellformed : forall sm s0 h, hist_init s0 ->
+  NoDup (seqs (st (reach sm s0 h))) /\ dellog_wf (st (reach sm s0 h)).
+Proof. intros sm s0 h HI. split; [apply reach_nodup|apply reach_wf]; exact HI. Qed.
+Print Assumptions c04_rows_wellformed.
+
+(* non-vacuity: two users, three messages; a hard request of a member without D is a soft one
+   (only he stops seeing 1, 2); the owner's hard delete of 3, 2 erases them for both; the
+   deletion log reported to each covers exactly what was deleted for him *)
+Example c04_ex_history :
+  let r := run_i [(1%N, 1%N); (2%N, 2%N)] (mkState ex_s0 None 0) ex_hist in
+  map (fun o => map (fun e => fst (fst e)) (data_of o)) (skipn 5 (snd r)) =
+    [[]; [3]; [3; 2; 1]; []; [1]; []; []] /\
+  nth 5 (snd r) [] = [(2%N, Ctrl 200 [(P_del, 1)])] /\
+  nth 8 (snd r) [] = [(1%N, Ctrl 200 [(P_del, 2)])] /\
+  nth 10 (snd r) [] = [(2%N, MetaDel 2 [(1, 4)])] /\
+  nth 11 (snd r) [] = [(1%N, MetaDel 2 [(2, 4)])] /\
+  map m_delid (msgs (st (fst r))) = [0; 2; 2].
+Proof. exact history_example. Qed.
